@@ -2,8 +2,12 @@
 
    Model/PktTx.v holds the SPECIFICATION tp_mon (an abstract machine over the LIST of unacknowledged headers) and the
    code-shaped MODEL ptx_step of PacketTransmitter's bookkeeping (luna/gateware/usb/usb3/link/transmitter.py).
-   How to read "tp_accepts ... = true": in every cycle, as long as the link stays enabled and the partner keeps its side
-   (never more credits than it has buffers; it acknowledges only headers transmitted since its last LBAD),
+   How to read "tp_accepts ... = true": in every cycle, as long as the link goes down (enable low) only while the
+   transmitter is quiescent (raw transmitter idle, every accepted header transmitted, no LBAD backlog) and the partner
+   keeps its side (never more credits than it has buffers; it acknowledges only headers transmitted since its last LBAD),
+     - a cycle with the link down forgets the session: bring-up, credits, credit index, the unacknowledged headers and
+       retry mode start afresh; the partner must advertise again, and an LBAD in the new session retransmits only
+       headers of the new session;
      - queue.ready is high exactly after bring-up while an advertised credit is unused; an LCRD adds a credit only if
        it carries the next index A, B, C, D, ... (else recovery_required); taking a header uses one;
      - the k-th header taken after the partner's advertisement LGOOD a gets sequence number a + 1 + k (stamped into
